@@ -10,7 +10,7 @@ import sys
 
 VERIF = os.path.dirname(os.path.dirname(os.path.abspath(__file__)))
 
-ENG = {"vm": "nano_virt --run", "nano_vm": "nano_vm (.nvm emitted by nano_virt)", "native": "compiled binary",
+ENG = {"wrap": "stand-alone executable from nano_virt -o", "vm": "nano_virt --run", "nano_vm": "nano_vm (.nvm emitted by nano_virt)", "native": "compiled binary",
        "eval": "nanoc evaluator (shadow block)"}
 CLS = {"neg": "index -1", "len": "index == length", "len+1": "index == length+1", "2^31": "index 2^31",
        "2^32+k": "index 2^32+k, k < length (2^32 for the empty array)", "int64max": "index 2^63-1",
@@ -23,7 +23,7 @@ OBS = {"continued": "the program continues (value/marker and AFTER printed)",
 def witness(engine, op, extra, obs):
     if op == "array_pop":
         return "findings/C08/array_pop_empty.nano"
-    if engine in ("vm", "nano_vm"):
+    if engine in ("vm", "nano_vm", "wrap"):
         if op == "at" and obs == "value":
             return "findings/C08/vm_at_struct.nano"
         return "findings/C08/vm_%s.nano" % op
@@ -43,7 +43,10 @@ def main():
         if p[0] == "asm":
             sys.exit("assembler-level finding %s: not expected, look at it by hand" % key)
         engine, op = p[0], p[1]
-        extra = p[2] if len(p) == 5 else None
+        place = None
+        if "@" in engine:                 # "<engine>@<placement>" (placement grid)
+            engine, place = engine.split("@", 1)
+        extra = p[2] if len(p) == 5 else None       # native: "<kind>[:<construction>]", eval: "<construction>"
         cls, obs = p[-2], p[-1]
         o = OBS.get(obs)
         if o is None and obs.startswith("sanitizer:"):
@@ -52,6 +55,8 @@ def main():
             ENG[engine], op,
             (" on array<%s>" % extra) if engine == "native" else (" on a %s array" % extra) if engine == "eval" else "",
             CLS[cls], o)
+        if place:
+            what += " [access placed: %s]" % place
         out.append({"property": "C08", "key": key, "what": what, "witness": witness(engine, op, extra, obs)})
     path = os.path.join(VERIF, "findings", "C08", "known.json")
     with open(path, "w") as f:
